@@ -142,6 +142,9 @@ TraceStats ==
     /\ Clause("C09", "fit_before_relabel_in_every_round", Ev.round = round)
     /\ Clause("C13", "phase_keeps_the_labelling", Ev.out.labels = labels)
     /\ Clause("C12", "fitted_to_exactly_its_own_windows_with_requested_estimator", AllOkInc(Ev.o1))
+    \* (C09 states it too: each round fits the statistics to the CURRENT labels before relabelling - statistics kept
+    \*  from an earlier labelling freeze the model and make the loop stop where fit-then-relabel is not at a fixed point)
+    /\ Clause("C09", "each_round_fits_statistics_to_the_current_labels", AllOkInc(Ev.o1))
     /\ StatsBody
     /\ PhaseCommon(Ev.out)
     /\ statDig' = [k \in 1..cfg.K |-> [cov |-> Ev.out.cov[k], mean |-> Ev.out.mean[k]]]
